@@ -56,7 +56,7 @@ class C16(engine.Check):
 
 def specs(tier: str):
     sp = families.c01_specs(tier, kmode="all", terminals=T_C16, max_inputs=45 if tier == "quick" else 130)
-    return sp
+    return sp + [x for x in families.skip_specs("all", tier) if True]
 
 
 def run(tier: str) -> int:
@@ -65,7 +65,7 @@ def run(tier: str) -> int:
         C16(), specs(tier), tier, "exploration",
         bounds=[{"top": [{"n": n, "modifiers": list(m), "trivia": list(t)} for n, m, t in b["top"]], "contexts": [{"hole_size": h, "trivia": list(t)} for h, t in b["ctx"]],
                  "start_positions": "every k in 0..len(text)", "max_inputs_per_rule": 45 if tier == "quick" else 130}],
-        rule=families.c01_rule_text() + "; terminals extended by ASCII_HEX_DIGIT, (!\"b\" ~ ANY)* and a squashable choice (regex-backed after optimisation); no member uses SOI. "
+        rule=families.c01_rule_text() + families.SKIP_RULE_TEXT + "; terminals extended by ASCII_HEX_DIGIT, (!\"b\" ~ ANY)* and a squashable choice (regex-backed after optimisation); no member uses SOI. "
              "For every text and every k in 0..len: observation of parse(rule, text, start_pos=k) must equal the observation of parse(rule, text[k:]) with every position (and furthest_pos, except the -1 sentinel) shifted by k. "
              "Non-trivial: the first mode returned at least one pair",
         validate_model=False, still_violates=replay_case,
